@@ -12,3 +12,20 @@ def termValue [Mul R] [One R] [HPow R Nat R] (arg : Name → R) : List Name → 
 def evalTerms [Zero R] [Add R] [Mul R] [One R] [HPow R Nat R] (arg : Name → R) (ns : List Name) (ts : List (Expo × R)) : R :=
   ts.foldr (fun t acc => t.2 * termValue arg ns t.1 + acc) 0
 end Np
+
+namespace Np
+/-- the parameter map of `call`: positional (with `None` placeholders) and keyword arguments → one optional
+binding per indeterminate of the polynomial, or `TypeError` (`none`) for an unknown keyword or a name that is
+given both ways. Mirrors the loop order of the source. -/
+def bindArgs {α : Type} (names : List Name) (args : List (Option α)) (kwargs : List (Name × α)) :
+    Option (List (Option α)) :=
+  -- `for arg, name in zip(args, poly.names): if name in kwargs: raise TypeError`
+  if (List.zip args names).any (fun an => kwargs.any (fun kv => kv.1 == an.2)) then none
+  -- `extra_args = [key for key in parameters if key not in poly.names]`
+  else if kwargs.any (fun kv => !(names.contains kv.1)) then none
+  else some <| (List.range names.length).map fun k =>
+    let name := names.getD k 0
+    match (args.getD k none) with
+    | some a => some a
+    | none => (kwargs.find? (fun kv => kv.1 == name)).map (·.2)
+end Np
